@@ -378,7 +378,9 @@ pub fn run_inprocess(ops: &[Op]) -> Result<Outcome, Violation> {
                                 let t2 = text.clone();
                                 if let Ok(run) = lw::catch(move || lw::analyze(&t2)) {
                                     let got = parse_hover_sets(md);
-                                    if let Some((_, ns)) = run.sets.iter().find(|((s, e), _)| range_of(&text, *s, *e) == r) {
+                                    // a hover on the head of a rule declaration covers the declaration and shows the sets of its body
+                                    let body_of_decl = run.rule_spans.iter().find(|((s, e), _)| range_of(&text, *s, *e) == r).and_then(|(_, b)| run.sets.get(b));
+                                    if let Some(ns) = run.sets.iter().find(|((s, e), _)| range_of(&text, *s, *e) == r).map(|x| x.1).or(body_of_decl) {
                                         let filt = |s: &Option<lw::TokSet>| -> Vec<String> {
                                             let mut v: Vec<String> = s.clone().unwrap_or_default().into_iter().filter(|t| t == "EOF" || !t.starts_with("EOF")).collect();
                                             v.sort();
